@@ -12,6 +12,11 @@ def _e(text, technique="TLA+ reference spec; TLC exhaustive small-scope model re
 
 
 _T = "TLA+ reference spec (LachesisTrace.tla); TLC trace validation of recorded runs of the real consensus"
+_TV = ("TLA+ algorithm model VecIndex.tla model-checked against the graph definitions (exhaustive for two validators, TLC simulation for "
+       "three and four) with every complete DAG replayed into the real vecfc.Index; plus TLC trace validation (LachesisTrace.tla) of "
+       "recorded runs of the real consensus")
+_TC = ("TLA+ reference spec (LachesisTrace.tla); TLC exhaustive small-scope fork model and TLC-/search-found DAG corpora replayed into "
+       "the code (kept running and restarted) + TLC trace validation of recorded runs")
 
 CHECKS = {
     "C01": _e("TLC explores every DAG of the bounded model Lachesis.tla in every parents-first creation order and checks that the "
@@ -25,23 +30,30 @@ CHECKS = {
     "C03": _e("The cheater list of every block is compared (as a sequence) with the canonical-order list of validators whose fork is "
               "visible from the Atropos; the canonical order is computed in the spec from (weight desc, id asc). Bounded model with a "
               "forking validator replayed exhaustively; random runs include forkers at and beyond one third (content checked given "
-              "the logged Atropos).", ref="C03"),
+              "the logged Atropos). Corpus DAGs (late fork marks; a cheater listed by one block and not by the next, scripted for "
+              "eight and nine validators) are replayed with the trace specification as only oracle.", ref="C03"),
     "C04": _e("Every Process verdict must equal Allowed(claimed frame) and every Build result BuildFrame (highest allowed, capped at "
               "+100) of the specification: wrong-frame clones, speculative builds with arbitrary parents, lazily chosen allowed "
               "frames, histories of up to 767 speculative builds in front of the build of a root, a validator sleeping > 100 frames; "
               "bounded model with arbitrary allowed frames replayed exhaustively.", ref="C04"),
     "C05": _e("Every answer of vecfc.Index.ForklessCause (random and all-pairs queries, warm and cold caches, after failing adds, three "
               "indexing orders, forkers also beyond one third) is recorded and compared by TLC with the graph definition evaluated "
-              "on the specification's own ancestry sets.", technique=_T, ref="C05"),
+              "on the specification's own ancestry sets. VecIndex.tla (the transcribed vector-clock algorithm) is model-checked against "
+              "the same definition and every complete DAG it reaches (exhaustive N=2, simulated N=3/4, corpus of late fork marks) is "
+              "indexed by a real index - every other one by a long-lived index after Reset - and all pairs compared.", technique=_TV, ref="C05"),
     "C06": _e("The merged highest-before vector of every processed event, read from vecfc.Index and through the dagidx adapter, is "
-              "compared per validator with: fork iff two same-seq events of the validator are ancestors, else the highest sequence.",
-              technique=_T, ref="C06"),
+              "compared per validator with: fork iff two same-seq events of the validator are ancestors, else the highest sequence. "
+              "The same comparison runs on every complete DAG of VecIndex.tla (exhaustive N=2, simulated N=3/4, corpus of DAGs in which "
+              "a fork mark arrives after a parent holding two plain branches).", technique=_TV, ref="C06"),
     "C07": _e("Build and rejected Process are stuttering steps of the specification; they are injected before ~80% of the events and "
               "every later verdict, frame and block must still be what the specification derives from the accepted events only; a "
-              "clean twin run must emit the same blocks.", technique=_T, ref="C07"),
+              "clean twin run must emit the same blocks. Includes speculative builds on all heads, rebuilds of one mutable object, clones "
+              "claiming the frame of a built-only candidate, and a validator that sleeps through 1000+ events whose event on all heads "
+              "is only built.", technique=_T, ref="C07"),
     "C08": _e("The instance is torn down and rebuilt from copies of its main and epoch databases with a fresh vector index after every "
               "accepted event (including right after decisions and seals); Restart is a stuttering step of the specification and all "
-              "later calls must be accepted by it.", technique=_T, ref="C08"),
+              "later calls must be accepted by it. The three-validator fork model and the DAG corpora (multi-frame roots, two fork roots "
+              "in one slot) are replayed kept-running, restarted after every event and after every third event.", technique=_TC, ref="C08"),
     "C09": _e("Seals are scripted at frames 1..5 with mutated and unchanged validator sets; after every call the spec checks epoch, "
               "validator set (through canonical order of cheaters/Atropos choice), last decided frame, block frame numbers and that "
               "nothing follows the sealing block; instances Reset() directly to later epochs are validated on the same events.",
@@ -56,7 +68,8 @@ CHECKS["C28"] = dict(
     category="model_checking",
     text="Linearizability: seeded concurrent histories (2-4 goroutines, <= 16 operations, call/ret lines appended under one mutex) of the "
          "flushable store, the flush-buffering pool, the thread-safe LRU and the events semaphore are recorded from the real code and TLC "
-         "searches for linearization points against the sequential specifications specs/conc/{FlushLin,PoolLin,LRULin,SemLin}.tla; "
+         "searches for linearization points against the sequential specifications specs/conc/{FlushLin,PoolLin,PoolDropLin,LRULin,SemLin}.tla "
+         "(plus long two-goroutine duels of a compound reader against a mutator); "
          "concurrent runs of the ordering buffer are validated against EventsBuffer.tla. Race freedom: a -race build of the harness runs "
          "workloads of 2-8 goroutines mixing all public operations (including size/statistics accessors); any DATA RACE report is a "
          "violation identified by the pair of racing functions.",
